@@ -270,7 +270,7 @@ enum Pend { Now(PIrq), Draw(usize, PIrq) }
 fn pending(m: &mut Machine, kb_locked: bool) -> Vec<Pend> {
     let mut v = vec![];
     if let Some(b) = &m.kb {
-        let ready = !kb_locked && !b.read().unwrap().is_empty();
+        let ready = !kb_locked && !b.read().unwrap_or_else(|e| e.into_inner()).is_empty();
         use lc3_ensemble::sim::device::ExternalDevice;
         let ie = m.sim.device_handler.io_read(0xFE00, false).map(|x| x & 0x4000 != 0).unwrap_or(false);
         if ready && ie { v.push(Pend::Now(PIrq::V(0x80, 4))); }
@@ -449,8 +449,8 @@ fn fin_of(rr: &RunRes, with_mem: bool) -> Fin {
     let s = &rr.m.sim;
     Fin { end: rr.end.clone(), regs: (0..8u8).map(|k| s.reg_file[reg(k)].verif_parts()).collect(), pc: s.pc, psr: s.psr().get(),
           ssp: s.verif_saved_sp().verif_parts(),
-          disp: rr.m.ds.as_ref().map(|b| b.read().unwrap().clone()).unwrap_or_default(),
-          kbq: rr.m.kb.as_ref().map(|b| b.read().unwrap().iter().copied().collect()).unwrap_or_default(),
+          disp: rr.m.ds.as_ref().map(|b| b.read().unwrap_or_else(|e| e.into_inner()).clone()).unwrap_or_default(),
+          kbq: rr.m.kb.as_ref().map(|b| b.read().unwrap_or_else(|e| e.into_inner()).iter().copied().collect()).unwrap_or_default(),
           umem: if with_mem { (0x3000..0xFE00u16).map(|a| s.mem[a].verif_parts()).collect() } else { vec![] } }
 }
 /// the interrupted run against the uninterrupted one
@@ -476,7 +476,7 @@ fn check_handlers(pl: &Plan, rr: &RunRes, kb_in: &[u8]) -> Option<String> {
         let got = rr.m.sim.mem[h.cnt].get();
         if got != want { return Some(format!("handler of vector {:#04x} completed {got} times, the reference predicts {want} entries", h.vect)); }
         if h.kind == 3 && h.vect == 0x80 {
-            let left = rr.m.kb.as_ref().map(|b| b.read().unwrap().len()).unwrap_or(0);
+            let left = rr.m.kb.as_ref().map(|b| b.read().unwrap_or_else(|e| e.into_inner()).len()).unwrap_or(0);
             let consumed = kb_in.len() - left.min(kb_in.len());
             for k in 0..(if want <= 16 { consumed.min(want as usize) } else { 0 }) {
                 if rr.m.sim.mem[h.buf + k as u16].get() != kb_in[k] as u16 { return Some(format!("keyboard handler stored {:#x} as character {k}, typed {:#x}", rr.m.sim.mem[h.buf + k as u16].get(), kb_in[k])); }
@@ -775,7 +775,7 @@ fn c12_pair(ctx: &Ctx, root: &Rng, k: usize, t: &T12, stats: &EntryStats, want_c
         return;
     };
     // ---- the real run continues through the OS
-    let disp_v = mv.ds.as_ref().unwrap().read().unwrap().clone();
+    let disp_v = mv.ds.as_ref().unwrap().read().unwrap_or_else(|e| e.into_inner()).clone();
     let mut tail = 0usize;
     let mut envs_r = envs.clone();
     let expect_os = matches!(stop, EndK::Halt | EndK::Err(0..=3));
@@ -791,7 +791,7 @@ fn c12_pair(ctx: &Ctx, root: &Rng, k: usize, t: &T12, stats: &EntryStats, want_c
         t.real_tail.fetch_add(tail as u64, Relaxed);
         if !ended { ctx.fail("C12", "real_run_no_halt", format!("program {k}: under real traps the machine does not turn the clock off within 4000 steps after the virtual run ended with {:?}", stop), replay_of(&sr, &envs_r)); return; }
     }
-    let disp_r = mr.ds.as_ref().unwrap().read().unwrap().clone();
+    let disp_r = mr.ds.as_ref().unwrap().read().unwrap_or_else(|e| e.into_inner()).clone();
     let umem_eq = |a: &Machine, b: &Machine| (0x3000..0xFE00u16).find(|x| a.sim.mem[*x] != b.sim.mem[*x]);
     match &stop {
         EndK::Halt => {
@@ -831,8 +831,8 @@ fn c12_pair(ctx: &Ctx, root: &Rng, k: usize, t: &T12, stats: &EntryStats, want_c
         let (mut av, mut ar) = (build(&stv), build(&st_real));
         let rv = crate::ctx::catch(|| av.sim.run_with_limit(200_000));
         let rr = crate::ctx::catch(|| ar.sim.run_with_limit(200_000));
-        let dv = av.ds.as_ref().unwrap().read().unwrap().clone();
-        let dr = ar.ds.as_ref().unwrap().read().unwrap().clone();
+        let dv = av.ds.as_ref().unwrap().read().unwrap_or_else(|e| e.into_inner()).clone();
+        let dr = ar.ds.as_ref().unwrap().read().unwrap_or_else(|e| e.into_inner()).clone();
         let mut bad = vec![];
         match (&stop, &rv) {
             (EndK::Halt, Some(Ok(()))) => { if !av.sim.hit_halt() { bad.push("virtual run() did not report a halt".to_string()); } }
